@@ -12,28 +12,37 @@ import lib
 from oracles import c17_run as R
 
 PID = 'C17'
+TIER = ['quick']
 N1 = ['X', 'X,Y', 'W']
 N2 = ['Y', 'Z', 'Y,Z']
 
 
-def candidates(nts, tname, tier):
+def candidates(nts, tname, tier, nt2):
+    """rule candidates: [lhs, skeleton, {edge id: label}, terminal edges]; nts = arity-1 names, nt2 = the arity-2 name of this grammar"""
     c = [None]
-    sk = ['A', 'B', 'C', 'D'] + (['E'] if tier != 'quick' else [])
-    for lhs in nts[:2] if tier == 'quick' else nts:
-        for s in sk:
-            ids = list(R.SKEL[s]['nts'])
-            for labs in itertools.product(nts[:2], repeat=len(ids)):
+    sk = ['A', 'B', 'C', 'D', 'F', 'G', 'H', 'I'] + (['E'] if tier != 'quick' else [])
+    for s in sk:
+        S = R.SKEL[s]
+        lhss = [nt2] if len(S['ext']) == 2 else (nts[:2] if tier == 'quick' else nts)
+        for lhs in lhss:
+            ids = list(S['nts'])
+            pools = [[nt2] if len(S['nts'][i]) == 2 else nts[:2] for i in ids]
+            for labs in itertools.product(*pools):
                 for terms in ([], [tname]):
                     c.append([lhs, s, dict(zip(ids, labs)), terms])
     return c
 
 
 def shard(shard_i, nshards, tier, seed):
+    TIER[0] = tier
     col = lib.Collector()
-    C1, C2 = candidates(N1, 't1', tier), candidates(N2, 't2', tier)
+    C1, C2 = candidates(N1, 't1', tier, 'P'), candidates(N2, 't2', tier, 'Q')
     step = 7 if tier == 'quick' else 1
-    C1s = C1[::step]
-    C2s = C2[::9] if tier == 'quick' else C2[::2]
+    C1s = C1[::step * 2] if tier == 'quick' else C1[::step]
+    C2s = C2[::13] if tier == 'quick' else C2[::2]
+    # the second rule of each grammar always may be a rule for the arity-2 nonterminal (so that rules using it have derivations)
+    C1s += [c for c in C1 if c and c[1] in ('H', 'I') and c not in C1s]
+    C2s += [c for c in C2 if c and c[1] in ('H', 'I') and c not in C2s]
     A = [z3.Int(f'g1r{i}') for i in range(2)]
     Bv = [z3.Int(f'g2r{i}') for i in range(2)]
     V = z3.Int('variant')
@@ -48,7 +57,11 @@ def shard(shard_i, nshards, tier, seed):
             def body():
                 r1 = [C1[symx.choose(A[0], 0, len(C1))], C1s[symx.choose(A[1], 0, len(C1s), free=True)]]
                 r2 = [C2[symx.choose(Bv[0], 0, len(C2), free=True)], C2s[symx.choose(Bv[1], 0, len(C2s), free=True)]]
-                var = variants[symx.choose(V, 0, len(variants), free=True)]
+                # label variants are explored on top of every pair of first rules; with two rules per grammar only the plain variant (quick tier)
+                if TIER[0] == 'quick' and (r1[1] is not None or r2[1] is not None):
+                    var = 'plain'
+                else:
+                    var = variants[symx.choose(V, 0, len(variants), free=True)]
                 g1 = {'start': 'X', 'rules': [r for r in r1 if r], 'terminals': {'t1': ['L']}}
                 g2 = {'start': 'Y', 'rules': [r for r in r2 if r], 'terminals': {'t2': ['L']}}
                 if var == 'terminal_conflict':
